@@ -203,8 +203,63 @@ def fwdAnswer (evs : List Fwd.Ev) : Json :=
     ("out", Json.mkObj (as.map fun a => (toString a, match s.out a with | none => Json.null | some l => toksJson l))),
     ("spec", Json.mkObj (as.map fun a => (toString a, toksJson (Fwd.writesOf a evs))))]
 
+
+/-! ### stream machine with `io.capture` per execution (`Mode`): `{"op":"streammode","forest":[ITEM…]}` with
+    ITEM = `["w",n]` | `["x",b,on,cap,[ITEM…]]` | `["k",b]` -> `{"cell":"orig"|"other","unbound":b,"nodup":b,
+    "nsteps":n,"origLog":[TOK…],"out":{"a":[TOK…]|null},"spec":{"a":[TOK…]}}` -/
+
+instance : Inhabited Mode.Forest := ⟨.nil⟩
+
+partial def parseModeForest (items : List Json) : Mode.Forest :=
+  match items with
+  | [] => .nil
+  | it :: rest =>
+    match asArr it with
+    | [tag, n] =>
+      if asStr tag = "w" then .write (asNat n) (parseModeForest rest)
+      else if asStr tag = "k" then .kw (asNat n) (parseModeForest rest)
+      else parseModeForest rest
+    | [tag, b, on, cap, body] =>
+      if asStr tag = "x" then
+        .exec (asNat b) ((on.getBool?).toOption.getD false) ((cap.getBool?).toOption.getD true)
+          (parseModeForest (asArr body)) (parseModeForest rest)
+      else parseModeForest rest
+    | _ => parseModeForest rest
+
+def modeAnswer (evs : List Mode.Ev) : Json :=
+  let s := Mode.run Fwd.St.init evs
+  let as := Mode.started evs
+  Json.mkObj [
+    ("cell", Json.str (if s.cell == .orig then "orig" else "other")),
+    ("unbound", Json.bool s.unbound),
+    ("nodup", Json.bool (decide (Mode.started evs).Nodup)),
+    ("nsteps", toJson evs.length),
+    ("origLog", toksJson s.origLog),
+    ("out", Json.mkObj (as.map fun a => (toString a, match s.out a with | none => Json.null | some l => toksJson l))),
+    ("spec", Json.mkObj (as.map fun a => (toString a, toksJson (Mode.writesOf a evs))))]
+
+def parseModeEv (j : Json) : Option Mode.Ev :=
+  match asArr j with
+  | [tag, a] =>
+    match asStr tag with
+    | "save" => some (.save (asNat a)) | "set" => some (.set (asNat a))
+    | "restore" => some (.restore (asNat a)) | "read" => some (.read (asNat a))
+    | "swapNC" => some (.swapNC (asNat a)) | "restoreNC" => some (.restoreNC (asNat a))
+    | _ => none
+  | [tag, a, n] =>
+    if asStr tag = "write" then some (.write (asNat a) (asNat n))
+    else if asStr tag = "getlive" then some (.getlive (asNat a) ((n.getBool?).toOption.getD false))
+    else none
+  | _ => none
+
 def handle (j : Json) : Json :=
   match jstr j "op" with
+  | "streammode" =>
+    if jhas j "forest" then modeAnswer (Mode.flatten none (parseModeForest (jarr j "forest")))
+    else
+      match (jarr j "evs").mapM parseModeEv with
+      | none => Driver.err "bad ev"
+      | some evs => (modeAnswer evs).setObjVal! "ncOnly" (Json.bool (Mode.ncOnly evs))
   | "streamfwd" => fwdAnswer (Fwd.flatten none (parseFwdForest (jarr j "forest")))
   | "py" =>
     match actionRes j, bodyOps j with
